@@ -16,80 +16,7 @@
 OPAQUE_LENGTH (Vec2, "V2", 2)
 OPAQUE_LENGTH (Vec3, "V3", 3)
 
-IMATH_INTERNAL_NAMESPACE_HEADER_ENTER
-template <>
-inline bool
-extractAndRemoveScalingAndShear (Matrix44<symns::Sym>& mat, Vec3<symns::Sym>& scl, Vec3<symns::Sym>& shr, bool exc)
-{
-    using symns::Sym;
-    const Matrix44<Sym> in = mat;
-    Sym flag = symns::opaqueS ("SHRT.ear44Flag", in);
-    if (flag == Sym (0))
-    {
-        if (exc) throw std::domain_error ("Cannot remove zero scaling from matrix.");
-        return false;
-    }
-    mat = symns::opaqueA<Matrix44<Sym>> ("SHRT.ear44Mat", in);
-    scl = symns::opaqueA<Vec3<Sym>> ("SHRT.ear44Scl", in);
-    shr = symns::opaqueA<Vec3<Sym>> ("SHRT.ear44Shr", in);
-    return true;
-}
-template <>
-inline bool
-extractAndRemoveScalingAndShear (Matrix33<symns::Sym>& mat, Vec2<symns::Sym>& scl, symns::Sym& shr, bool exc)
-{
-    using symns::Sym;
-    const Matrix33<Sym> in = mat;
-    Sym flag = symns::opaqueS ("SHRT.ear33Flag", in);
-    if (flag == Sym (0))
-    {
-        if (exc) throw std::domain_error ("Cannot remove zero scaling from matrix.");
-        return false;
-    }
-    mat = symns::opaqueA<Matrix33<Sym>> ("SHRT.ear33Mat", in);
-    scl = symns::opaqueA<Vec2<Sym>> ("SHRT.ear33Scl", in);
-    shr = symns::opaqueS ("SHRT.ear33Shr", in);
-    return true;
-}
-IMATH_INTERNAL_NAMESPACE_HEADER_EXIT
-
-// native evaluators (translator validation): the real inner function at double / float, non-throwing form
-template <class T, int what> static std::vector<T> nativeEar44 (const std::vector<T>& a)
-{
-    IMATH_INTERNAL_NAMESPACE::Matrix44<T> m;
-    for (int i = 0; i < 4; ++i) for (int j = 0; j < 4; ++j) m.x[i][j] = a[4 * i + j];
-    IMATH_INTERNAL_NAMESPACE::Vec3<T> scl (0), shr (0);
-    bool ok = IMATH_INTERNAL_NAMESPACE::extractAndRemoveScalingAndShear (m, scl, shr, false);
-    std::vector<T> o;
-    if (what == 0) o.push_back (ok ? T (1) : T (0));
-    if (what == 1) for (int i = 0; i < 4; ++i) for (int j = 0; j < 4; ++j) o.push_back (m.x[i][j]);
-    if (what == 2) for (int i = 0; i < 3; ++i) o.push_back (scl[i]);
-    if (what == 3) for (int i = 0; i < 3; ++i) o.push_back (shr[i]);
-    return o;
-}
-template <class T, int what> static std::vector<T> nativeEar33 (const std::vector<T>& a)
-{
-    IMATH_INTERNAL_NAMESPACE::Matrix33<T> m;
-    for (int i = 0; i < 3; ++i) for (int j = 0; j < 3; ++j) m.x[i][j] = a[3 * i + j];
-    IMATH_INTERNAL_NAMESPACE::Vec2<T> scl (0);
-    T shr = 0;
-    bool ok = IMATH_INTERNAL_NAMESPACE::extractAndRemoveScalingAndShear (m, scl, shr, false);
-    std::vector<T> o;
-    if (what == 0) o.push_back (ok ? T (1) : T (0));
-    if (what == 1) for (int i = 0; i < 3; ++i) for (int j = 0; j < 3; ++j) o.push_back (m.x[i][j]);
-    if (what == 2) for (int i = 0; i < 2; ++i) o.push_back (scl[i]);
-    if (what == 3) o.push_back (shr);
-    return o;
-}
-#define NATIVE(name, fn, w) static int native_##fn##w = (symns::natives ()[name] = symns::Native{&fn<double, w>, &fn<float, w>}, 0);
-NATIVE ("SHRT.ear44Flag", nativeEar44, 0)
-NATIVE ("SHRT.ear44Mat", nativeEar44, 1)
-NATIVE ("SHRT.ear44Scl", nativeEar44, 2)
-NATIVE ("SHRT.ear44Shr", nativeEar44, 3)
-NATIVE ("SHRT.ear33Flag", nativeEar33, 0)
-NATIVE ("SHRT.ear33Mat", nativeEar33, 1)
-NATIVE ("SHRT.ear33Scl", nativeEar33, 2)
-NATIVE ("SHRT.ear33Shr", nativeEar33, 3)
+#include "c12_shrt_opaque.h"
 
 using namespace IMATH_INTERNAL_NAMESPACE;
 #include "ops_c12.h"
